@@ -293,6 +293,13 @@ class MiniEval:
                 raise Unsupported("unpack arity")
             for t, v in zip(target.elts, vals):
                 self._bind(t, v)
+        elif isinstance(target, ast.Subscript):
+            obj = self.ev(target.value)
+            key = self.ev(target.slice)
+            if isinstance(obj, (dict, list)) or (isinstance(obj, Model) and hasattr(obj, "__setitem__")):
+                obj[key] = value
+            else:
+                raise Unsupported(f"item store into {type(obj).__name__}")
         else:
             raise Unsupported(f"bind target {norm(target)}")
 
